@@ -382,6 +382,17 @@ def c11_streams(ctx):
         for s in [a * 2, a.upper() * 2, a + a.upper(), a.upper() + a + "x", a * 3 + "x", "1" + a]:
             cs = [Case(p, "i", "analyze", s), Case(p, "i", "analyze", s), Case(p2, "i", "analyze", s), Case(p, "i", "is_match", s), Case(p, "i", "is_match", s)]
             gs.append(Group(cs, {"features": set(), "input": s, "ast": ast, "s2": s, "p2": p2, "case_sensitive_escape": True}))
+    # comparison matrix: every ASCII character (and a few cased letters beyond) as a one-character literal against an
+    # input holding all of them: without i only the identical character matches, with i exactly the case counterparts
+    # — case-less characters (controls, punctuation, digits) have none, whatever their bit patterns
+    probes = [chr(c) for c in range(1, 128)] + list("éÉµßàÀſKσΣдД")
+    allp = "".join(probes)
+    meta_chars = set(".\\?*+{}()[]|^$-")
+    for x in probes:
+        lit = ("\\" + x) if x in meta_chars else x
+        for (p, inp, kind) in [(lit, allp, "matrix"), (lit + "b", "".join(y + "b\u2603" for y in probes), "matrix2")]:
+            cs = [Case(p, "i", "analyze", inp), Case(p, "", "analyze", inp)]
+            gs.append(Group(cs, {"features": set(), "input": inp, "kind": kind, "x": x, "probes": probes}))
     # without i a literal matches only the identical characters
     for alpha in CASE_ALPHABETS[:5]:
         for _ in range(ctx.scale(30, 300)):
@@ -398,6 +409,36 @@ def spans_only(ans):
 
 
 def c11_oracle(ctx, g):
+    if g.meta.get("kind") in ("matrix", "matrix2"):
+        x, probes, inp = g.meta["x"], g.meta["probes"], g.meta["input"]
+        step, stride = (1, 1) if g.meta["kind"] == "matrix" else (2, 3)
+        ctx.hist[g.meta["kind"]] += 1
+        out = []
+        for ans, fl in zip(g.impl, ("i", "")):
+            if not ans.startswith("OK"):
+                if not abnormal(ans):
+                    out.append(f"literal {x!r} (flags {fl!r}): {ans[:40]}")
+                continue
+            sp = spans_only(ans)
+            if sp is None:
+                continue
+            got = set()
+            for (a, b) in sp:
+                if b - a != step or a % stride:
+                    out.append(f"literal {x!r} (flags {fl!r}): unexpected span {(a, b)}")
+                    break
+                got.add(inp[a])
+            if fl == "":
+                want = {x}
+            else:
+                want = {y for y in probes if y == x or y.lower() == x.lower() or y.upper() == x.upper()}
+            # required: the character itself and its one-to-one simple case partner; allowed: anything whose simple
+            # lower or upper case coincides (whether `s` also matches U+017F is class-closure business: K8)
+            need = {x} | ({y for y in probes if y != x and ((y == x.lower() and x == y.upper()) or (y == x.upper() and x == y.lower()))} if fl == "i" else set())
+            if not out and not (need <= got <= want):
+                out.append(f"the one-character literal {x!r} under flags {fl!r} matches {sorted(got)} among the probe characters; required {sorted(need)}, allowed {sorted(want)}")
+            ctx.distinct.add((g.meta["kind"], x, fl))
+        return out[:1]
     if g.meta.get("kind") == "exact":
         a, b, c = g.impl
         w, w2 = g.meta["w"], g.meta["input"]
@@ -482,10 +523,15 @@ def c12_streams(ctx):
     # anchors as bare branches of an alternation after a repeat, and next to quantified terms
     for p in ["a*(?:^|b)a", "[ab]{0,3}(?:^|c)b", "x\n*(?:^|b)\ny", "x\n*(?:$|b)\ny", "a+(?:$|b)", "(?:a|^)+b", "a*(?:b|$)a", "(?:^a|b)*c", "a?(?:^|$)a",
               # a quantified single character directly followed by an anchor (the repeat must be able to give everything back)
-              "a*^a", "a?^a", "[ab]*^ab", ".*^ab", "a{0,2}^a", "a*?^a", "a*$", "a*$a", "a+$", "[ab]*$b", "b*^", "a*^$", "x*^ab", "a*^a|b"]:
+              "a*^a", "a?^a", "[ab]*^ab", ".*^ab", "a{0,2}^a", "a*?^a", "a*$", "a*$a", "a+$", "[ab]*$b", "b*^", "a*^$", "x*^ab", "a*^a|b",
+              # `^` that is NOT the first top-level term (behind a group, an optional term, `$`, a line break): under m the
+              # match may start on a later line, so nothing may be pinned to offset 0
+              "(^a)", "(?:^a)b", "b?^a", "$^a", "(^)a", "\n?^a", "(?:b|^)a", "x?^ab", "(^a|c)b", "(?:)^a", "b*^a+", "($)\n^a", "(^[ab])a", "()^a{2}",
+              "a$\n?", "(a$)", "a(?:$|b)\n^b"]:
         ast = parse_escaped(p.replace("\\n", "\n")) if "\\" in p else parse_full(p)
         for f in flagsets:
-            for s in ["a", "b", "ab", "aa", "x\n\ny", "x\ny", "ba", "x\n\n\ny", "c", "aab", "ac"]:
+            for s in ["a", "b", "ab", "aa", "x\n\ny", "x\ny", "ba", "x\n\n\ny", "c", "aab", "ac",
+                      "b\na", "b\nab", "\na", "b\n\naa", "c\nab\nab", "a\nb", "b\na\n", "x\nab", "a\n\nb"]:
                 gs.append(Group([Case(p, f, "is_match", s), Case(p, f, "analyze", s)], {"features": features(ast), "input": s, "ast": ast, "flags": f}))
     return gs
 
@@ -1292,6 +1338,30 @@ def c19_streams(ctx):
             for s in [lo + up, up + lo, lo + lo, lo + "-" + up, lo + lo + "-" + up + lo, lo + up + lo, "x" + lo + up]:
                 for f in ("i", ""):
                     gs.append(Group([Case(p, f, "is_match", s), Case(p, f, "analyze", s)], {"features": features(ast), "input": s, "ast": ast, "flags": f}))
+    # a group with alternatives of different lengths inside a bounded loop, next to a group-free branch, then the
+    # reference: an earlier iteration backtracks to its next alternative after a later iteration entered the group
+    # and failed (what the reference sees must be the span the group finally recorded)
+    loop_pats = []
+    for body in ["c|(a|ab)", "(a|ab)|c", "c|(ab|a)", "(a|ab)c?", "b|(a+)", "(a|ab)", "c|(a|ab)(b?)"]:
+        for q in ["{1,2}", "{2}", "{1,3}", "+", "*", "{2,3}"]:
+            for tail in ["\\1", "-\\1", "\\1$", "\\1c"]:
+                for pre in ["^", ""]:
+                    loop_pats.append(pre + "(?:" + body + ")" + q + tail)
+    for p in (r.sample(loop_pats, 70) if ctx.quick() else loop_pats):
+        try:
+            ast = parse_full(p)
+        except Exception:
+            continue
+        f = r.choice(["", "", "i"])
+        seen_in = set()
+        for _ in range(ctx.scale(24, 80)):
+            s = "".join(r.choice(["a", "ab", "c", "b", "abc"]) for _ in range(r.randint(1, 3))) + r.choice(["", "", "-"]) + r.choice(["a", "ab", "b", "", "c"]) + r.choice(["", "", "c"])
+            if f == "i" and r.random() < 0.5:
+                s = "".join(swapc(c) if r.random() < 0.4 else c for c in s)
+            if s in seen_in:
+                continue
+            seen_in.add(s)
+            gs.append(Group([Case(p, f, "is_match", s), Case(p, f, "analyze", s)], {"features": features(ast), "input": s, "ast": ast, "flags": f}))
     # generated patterns with back-references
     for i in range(ctx.scale(1200, 15000)):
         ast, p, alpha = gen_pattern(ctx, allow_backref=True, maxgroups=3)
@@ -1478,7 +1548,21 @@ def c20_stress(ctx):
     amb = [("alt", [A, ("seq", [A, B])]), ("alt", [("seq", [A, B]), A]), ("alt", [A, ("seq", [A, A])]), ("alt", [("seq", [A, A]), A]), ("alt", [B, ("seq", [B, A]), A])]
     twice = [("seq", [("bol",)] + pre + [rep(("grp", False, b, 0), 0, mx)] + tail + [("eol",)])
              for pre in pres[2:] for b in amb for mx in (1, 2) for tail in ([], [("lit", "c")])]
-    for ast in chosen + (r.sample(extra, 40) if ctx.quick() else extra) + twice:
+    # an alternation of three or more one-character branches, one of which also holds a zero-width term (`a$`, `^a`,
+    # `b{0}a`, `(?:)a`): it is not a character class, whatever its fixed length says
+    C, D = ("lit", "c"), ("lit", "d")
+    zws = [("eol",), ("bol",), rep(B, 0, 0), ("grp", False, ("seq", []), 0)]
+    onechar = []
+    for zw in zws:
+        for br in (("seq", [A, zw]), ("seq", [zw, A])):
+            for others in ([B, C], [B, C, cls], [C, B]):
+                for k in range(len(others) + 1):
+                    bs = others[:k] + [br] + others[k:]
+                    for tl in ([D], [], [A], [("eol",)]):
+                        for pre in ([], [B], [("bol",)]):
+                            onechar.append(("seq", pre + [("grp", False, ("alt", bs), 0)] + tl))
+    onechar = r.sample(onechar, ctx.scale(40, 600))
+    for ast in chosen + (r.sample(extra, 40) if ctx.quick() else extra) + twice + onechar:
         tail = [x for x in ast[1] if x == ("lit", "c")]
         p = render(ast)
         rw = apply_law(r, ast, every=True)
@@ -1486,6 +1570,8 @@ def c20_stress(ctx):
             rw = [x for x in rw if "collapsed" in x[1] or "rt|st" in x[1] or "unwrapped" in x[1]] or rw
         alpha = "abc" if any(x == ("lit", "c") for x in tail) else "ab"
         pool = [s for s in rxlib.strings_upto(alpha, 6) if len(s) >= 2]
+        if ast in onechar:
+            pool = [s for s in rxlib.strings_upto("abd", 3) if s] + ["bad", "cd", "ad", "aad", "a\nd"]
         for ast2, law, ordered in (rw if ast in twice else r.sample(rw, min(ctx.scale(4, 8), len(rw)))):
             p2 = render(ast2)
             fe = features(ast) | features(ast2)
